@@ -621,7 +621,7 @@ impl gen::CELVisitorCompat<'_> for Parser {
             }
             Some(member) => {
                 if ctx.ops.len() % 2 == 0 {
-                    self.visit(member.as_ref());
+                    return self.visit(member.as_ref());
                 }
                 let op_id = self.helper.next_id(&ctx.ops[0]);
                 let target = self.visit(member.as_ref());
@@ -637,7 +637,7 @@ impl gen::CELVisitorCompat<'_> for Parser {
             }
             Some(member) => {
                 if ctx.ops.len() % 2 == 0 {
-                    self.visit(member.as_ref());
+                    return self.visit(member.as_ref());
                 }
                 let op_id = self.helper.next_id(&ctx.ops[0]);
                 let target = self.visit(member.as_ref());
